@@ -93,9 +93,9 @@ def _values_in(inner, notes):
     # split top-level "k=v" pairs (values may contain nested parentheses / commas)
     depth, cur, parts = 0, "", []
     for ch in inner:
-        if ch in "([":
+        if ch in "([<":  # (element labels of returned arrays look like f(..)<0,1>)
             depth += 1
-        elif ch in ")]":
+        elif ch in ")]>":
             depth -= 1
         if ch == "," and depth == 0:
             parts.append(cur)
